@@ -6,7 +6,7 @@ CHECKS = [
  ("C01","exploration","bounded exhaustive input/configuration enumeration on the implementation (explicit product of key x every payload length x footer x assertion x owned RNG answers; no sampling)",
   "Round-trip identity over every cell of the product on the real code; library nonces via the owned getrandom / libsodium seams, aws-lc ECDSA (r,s) width classes via the H1 nonce seam.",
   "Payload contents: one pattern per length. aws-lc DRBG values and RSA-PSS salts are not ownable (repeated, value-independent oracle)."),
- ("C02","fault_enumeration","exhaustive fault enumeration per base token (every bit, truncation, extension, boundary shift, relabel, key bit) executed on the implementation",
+ ("C02","fault_enumeration","exhaustive fault enumeration per base token (every bit, byte value, truncation, extension, boundary shift incl. length-imitating zero-filled pieces, relabel, typed-footer re-encoding, key bit) executed on the implementation",
   "Every fault of every listed class is applied to every base token and unsealed; any acceptance is a violation; the untouched token must be accepted (witness).",
   "Fault classes are exactly those the statement lists (single-bit, truncation/extension, boundary shifts, relabels, other keys); ECDSA (r,n-s) is not a single-bit change."),
  ("C03","exploration","bounded exhaustive enumeration vs executable reference models (spec-derived, vector-validated), incl. counter-carry states reached directly or through the H2 seam",
@@ -24,19 +24,19 @@ CHECKS = [
  ("C07","exploration","bounded exhaustive enumeration vs executable PASERK reference models for the same owned random draws; model-built blobs (incl. counter carry via H2) opened by the implementation",
   "Library blob == model blob for identical draws; every model blob opens to the model's key; siblings open each other's output.",
   "Models validated on the official vectors in the same run (PBKW vectors above 64 MiB only in thorough)."),
- ("C08","model_checking","explicit-state BFS over the key-representation graph on the real conversion functions (state = kind + key bytes, invariant checked in every state) + exhaustive acceptance sweep against a validity model",
+ ("C08","model_checking","explicit-state BFS over the key-representation graph on the real conversion functions, histories re-executed on live key objects (invariant on bytes and on the behaviour of the very object reached, in every state) + exhaustive acceptance sweep against a validity model",
   "Every edge sequence up to the depth bound is executed on real objects; invariant: bytes and behaviour equal the origin's; acceptance iff the validity model accepts.",
   "Validity model written from the statement (identity/off-curve rejected; other small-order Ed25519 points undecided because the official vectors use one)."),
  ("C09","exploration","exhaustive enumeration of every valid-UTF-8 string of <=3 bytes (thorough: 4) in every base64 tail position on the three decoder code paths, the encoder for all short byte strings, and a reduced alphabet on all 132 FromStr/Display pairs",
   "Library accepts iff the strict reference decoder accepts; accepted strings re-serialise identically; serde form is exactly the string.",
   "Reference decoder is table driven; the shared base64 layer is enumerated exhaustively at one backend per code path."),
- ("C10","exploration","exhaustive cross product of every valid serialised value x every parser instantiation; key bytes x every key kind; header relabels of authenticated blobs",
+ ("C10","exploration","exhaustive cross product of every valid serialised value x every parser instantiation; key bytes x every key kind; every body length 0..200 and every foreign body under each key / id parser's own header; header relabels of authenticated blobs",
   "Accept iff same version header and same kind.",
   "Public/PkePublic and Secret/PkeSecret share a textual kind by design (k1 separated by modulus size)."),
  ("C11","exploration","exhaustive enumeration of validator expressions (all of depth<=2, depth 3 thorough) x boundary claim sets against an AST evaluator written from the statement",
   "validate() is Ok iff the evaluator accepts, ClaimsError otherwise; unseal releases claims iff accepted.",
   "now +- leeway representable for the alphabet, as the quantifier requires."),
- ("C12","model_checking","monitor automaton over the callback trace of the real unseal pipeline for every failing token of the C02 fault enumeration and every subset of environment deviations",
+ ("C12","model_checking","monitor automaton over the callback trace of the real unseal pipeline for every failing token of the C02 fault enumeration (typed footers whose altered bytes decode to the sealed value included) and every subset of environment deviations",
   "Zero decoder/validator events for every failing token; error kind independent of payload content; order and inputs of callbacks on good tokens.",
   "Footer decoder runs at parse time by design; field privacy is decided by C18's probes."),
  ("C13","exploration","bounded exhaustive enumeration of keys x input forms vs an independent digest model; all id string lengths; all ordered id pairs",
@@ -45,16 +45,16 @@ CHECKS = [
  ("C14","exploration","exhaustive enumeration of presence masks x value alphabets and of every member sequence up to length 3 (4 thorough) over a 16-member alphabet vs a generic JSON parser",
   "encode/decode identity; wire form shape; decoded claims == generic parser's view whenever decode succeeds; completeness for well-typed objects.",
   "Generic parser: serde_json::Value (last occurrence wins, null == absent)."),
- ("C15","exploration","exhaustive small-scope enumeration: all piece lists (N<=3, pieces over {00,01,08} up to 2 bytes) for injectivity; piece counts 0..8 x length alphabet x every fragmentation for reference equality",
+ ("C15","exploration","exhaustive small-scope enumeration: all piece lists (N<=3, pieces over {00,01,08} up to 2 bytes) for injectivity; piece counts 0..8 x length alphabet x every fragmentation for reference equality; backend writer adapters through tokens, incl. every operation sequence of depth 2 (3 thorough) on a fresh OS thread",
   "Encoding == specification PAE for every case; all encodings pairwise distinct in the small scope; streamed writes == buffered.",
-  "Backend digest/MAC adapters are private and covered through C03/C07."),
- ("C16","fault_enumeration","operation histories (depth<=2, 3 thorough) x failure injected at every RNG draw index with 0, 1 and 2 deviations, each execution run to completion; provenance via reference models",
+  "Backend digest/MAC adapters are private: observed through tokens against the reference model / an independent verifier."),
+ ("C16","fault_enumeration","operation histories (depth<=2, 3 thorough) x deviation-bounded DFS over the random source's answers {failure, partial fill then failure, all-ff, all-zero} at every draw index (0, 1, 2 deviations; positions of the second taken from the run with the first), each execution run to completion; provenance via reference models",
   "Failing draw => Err and no output; every output is the model's function of the bytes drawn during that call; all random fields pairwise distinct.",
   "Failure injectable only for getrandom-0.3 paths; aws-lc / OsRng values not ownable (long-history distinctness there is observation)."),
- ("C17","model_checking","stateless exploration of all interleavings (preemption bound 2, 3 thorough) of real OS threads under a baton scheduler at operation boundaries, owned RNG draws and caller callbacks; BFS over operation histories with a differential probe",
+ ("C17","model_checking","stateless exploration of all interleavings (preemption bound 2, 3 thorough) of real OS threads under a baton scheduler at operation boundaries, owned RNG draws and caller callbacks; BFS over operation histories (one at a time, references taken first) with a differential probe; free-running first-use races of fresh key objects for every operation pair",
   "Every schedule's per-thread results equal the sequential run on a fresh key; after every history prefix the key behaves like a fresh copy.",
-  "Preemption inside C library calls is invisible to a cooperative scheduler; the free-running 16-thread stress is sampling and advisory."),
- ("C18","exploration","exhaustive generated program catalogue (operation x purpose x key kind x key version, printing, field access) compiled by rustc; expected verdicts from a typing table",
+  "Preemption inside C library calls is invisible to a cooperative scheduler; the free-running parts (16-thread stress, cold-start pairs) are exhaustive over operation pairs but sampling over hardware interleavings, and say so."),
+ ("C18","exploration","exhaustive generated program catalogue (operation x token purpose x key kind x key version, crate aliases, conversions, printing, field access) compiled by rustc; expected verdicts from a typing table",
   "Every misuse program is rejected by the compiler, every correct counterpart compiles.",
   "A program is rejected when rustc reports an error on its own line; name-resolution errors are iterated out so all others are judged by the type checker."),
  ("C19","exploration","BFS over the feature-closure lattice (cargo check per closure) and reduced-build behaviour probes compared with the full build's transcript",
